@@ -301,7 +301,7 @@ theorem scan_split {P : List Sdk.PCmd} {st0 stE : Bool × Bool} (hP : Sdk.qscan 
   cases h1 : Sdk.qscan st0 (P.take (n + 1)) with
   | none => rw [h1] at hP'; cases hP'
   | some st1 =>
-    have e2 : P.take (n + 1) = P.take n ++ [c] := by rw [List.take_succ, hn]; rfl
+    have e2 : P.take (n + 1) = P.take n ++ [c] := by rw [List.take_add_one, hn]; rfl
     have h1' := h1
     rw [e2, Sdk.qscan_append] at h1'
     cases h2 : Sdk.qscan st0 (P.take n) with
